@@ -8,6 +8,7 @@ from harness.ns import QNAMES
 
 ID = "C14"
 LEAN_MODULES = ["Pypika.Props.C14"]
+TRACE_BUILDER = True   # builder calls made by this check are also run through Pypika.B.step (harness/trace.py)
 THEOREMS = ["Pypika.C14.join_guard_iff", "Pypika.C14.join_accepts_known", "Pypika.C14.custom_function_iff",
             "Pypika.C14.custom_function_no_params", "Pypika.C14.case_iff", "Pypika.C14.arity_guard", "Pypika.C14.once_only",
             "Pypika.C14.update_delete_iff", "Pypika.C14.conflict_handlers", "Pypika.C14.top_iff", "Pypika.C14.returning_iff", "Pypika.C14.returning_accepts_known",
